@@ -37,9 +37,11 @@ impl PartialOrdSpecImpl<Bytes> for Bytes {
         if bytes_lt(self@, other@) { Some(core::cmp::Ordering::Less) } else if self@ == other@ { Some(core::cmp::Ordering::Equal) } else { Some(core::cmp::Ordering::Greater) } }
 }
 impl PartialOrd for Bytes { #[verifier::external_body] fn partial_cmp(&self, o: &Bytes) -> (r: Option<core::cmp::Ordering>) { unimplemented!() } }
-/// the pool a request names: PoolKey::from_bytes, canonical spellings only
+/// the pool a request names: PoolKey::from_bytes, canonical spellings only, and never a pair with the placeholder denomination NewCustom
+/// (the empty name parses to NewCustom/MEL; every transaction's own new token is declared as NewCustom, so such a "pool" would trade
+/// different tokens as one denomination: fix "the placeholder denomination names no pool")
 pub open spec fn spec_req_key(data: Seq<u8>) -> Option<PoolKey> {
-    match spec_pk_from_bytes(data) { Some(k) => if pk_canonical(k) { Some(k) } else { None }, None => None }
+    match spec_pk_from_bytes(data) { Some(k) => if pk_canonical(k) && k.left != Denom::NewCustom && k.right != Denom::NewCustom { Some(k) } else { None }, None => None }
 }
 // ---- Vec<PoolKey>::sort / dedup (rule SUB: `v.sort()` -> `pk_sort(&mut v)`, `v.dedup()` -> `pk_dedup(&mut v)`; slice methods of std cannot carry specs here)
 /// the derived `Ord` of PoolKey (lexicographic on (left, right) in Denom's derived order): only its being a total order matters
